@@ -10,7 +10,7 @@ use std::rc::Rc;
 use vcommon::Rng;
 
 pub const NS: &[usize] = &[1, 2, 3, 7, 10, 32, 1024, 1028];
-pub const TS: &[u64] = &[1, 2, 7, 1_000, 2_500_000, 1_000_000_000, 3_000_000_000];
+pub const TS: &[u64] = &[1, 2, 7, 1_000, 2_500_000, 1_000_000_000, 3_000_000_000, 3_600_000_000_000];
 
 pub fn st(ns: u64) -> SimTime {
     SimTime::from_duration(Duration::from_nanos(ns))
@@ -167,7 +167,10 @@ pub fn gen_program(rng: &mut Rng, o: GenOpts) -> Program {
     let year = t.saturating_mul(n as u64);
     let start_ns = if o.nonzero_start && rng.chance(2, 3) {
         // the calendar queue starts scanning at zero: keep the number of buckets before the start bounded
-        let cands = [1u64, 7 * t, year, 3 * year + 1, 100_000 * t, 10_000_000_000, 1_000_000_000_000_000];
+        // the last two are late in a long run (10^7 s and 4*10^8 s plus a few ns): nanosecond timestamps there are
+        // not representable in f64
+        let cands =
+            [1u64, 7 * t, year, 3 * year + 1, 100_000 * t, 10_000_000_000, 1_000_000_000_000_000, 10_000_000_000_000_001, 400_000_000_000_000_003];
         let ok: Vec<u64> = cands.iter().copied().filter(|s| s / t <= 1_000_000).collect();
         *rng.pick(&ok)
     } else {
